@@ -170,6 +170,18 @@ func TestVerifC05Interest(t *testing.T) {
 				}
 				return false
 			}
+			// a raw-wire subscriber attached to one node: it announces topics on its stream and sometimes replaces that
+			// stream by a new one whose first packet lists another set (the node must end up with the latest set only)
+			var rsub *vPuppet
+			rsubAt := nodes[c.Intn(N)]
+			rsubState := map[string]bool{}
+			if c.Chance(0.6) {
+				rsub = n.NewPuppet("rsub", "", FloodSubID)
+				n.Connect(rsub.ID(), rsubAt.nd.ID())
+				vSettle(20 * time.Millisecond)
+				rsub.Open(rsubAt.nd.ID())
+				vSettle(20 * time.Millisecond)
+			}
 			nOps := c.Range(5, 40)
 			// half of the cases concentrate on one or two topics and two or three acting nodes, so that
 			// subscriptions, relays and their releases pile up on the same (node, topic)
@@ -180,7 +192,37 @@ func TestVerifC05Interest(t *testing.T) {
 			for op := 0; op < nOps && !c.Violated(); op++ {
 				x := nodes[c.Intn(actNodes)]
 				t := topics[c.Intn(actTopics)]
-				switch c.Intn(15) {
+				opk := c.Intn(15)
+				if rsub != nil && c.Chance(0.15) {
+					opk = 15
+				}
+				switch opk {
+				case 15:
+					if c.Chance(0.6) {
+						on := !rsubState[t]
+						rsub.Send(rsubAt.nd.ID(), vSubRPC(on, t))
+						rsubState[t] = on
+						note("rsub.announce(%s,%v)", t, on)
+					} else {
+						// a new stream (the old one is still open when it arrives) greeting with a PRNG subset
+						var set []string
+						for _, tt := range topics {
+							rsubState[tt] = c.Chance(0.5)
+							if rsubState[tt] {
+								set = append(set, tt)
+							}
+						}
+						if _, err := rsub.OpenNew(rsubAt.nd.ID()); err == nil {
+							if len(set) > 0 {
+								rsub.Send(rsubAt.nd.ID(), vSubRPC(true, set...))
+							} else {
+								// streams are negotiated lazily: something has to be written for the node to see it at all
+								rsub.Send(rsubAt.nd.ID(), vSubRPC(false, "unrelated"))
+							}
+						}
+						note("rsub.new_stream(%v)", set)
+						c.Count("remote_subscriber_restreams", 1)
+					}
 				case 0, 1, 2:
 					h, err := handle(x, t)
 					if err != nil {
@@ -365,6 +407,9 @@ func TestVerifC05Interest(t *testing.T) {
 							want[y.nd.ID()] = true
 						}
 					}
+					if rsub != nil && x == rsubAt && rsubState[t] {
+						want[rsub.ID()] = true
+					}
 					got := x.nd.ps.ListPeers(t)
 					gm := map[peer.ID]bool{}
 					for _, p := range got {
@@ -382,6 +427,8 @@ func TestVerifC05Interest(t *testing.T) {
 							}
 							cause := "unknown"
 							switch {
+							case rsub != nil && p == rsub.ID():
+								cause = "remote_subscriber"
 							case resets[[2]int{i, j}] > 0:
 								cause = "own_outbound_stream_was_reset"
 							case resets[[2]int{j, i}] > 0:
